@@ -505,9 +505,11 @@ def run(chk, replay=None):
 
     # borrow / raw-this violations of the static side: (class, posted callee) -> key
     BV = {}
+    BVSITE = {}       # -> class of the registering / posting object (the one whose destruction is the hazard)
     for v in recs["V"]:
         if v[3] in BORROW_KINDS:
             BV.setdefault((v[0], v[2]), viol_key(recs, v))
+            BVSITE.setdefault((v[0], v[2]), v[0])
 
     # ---- TSan suite
     t1 = time.time()
@@ -551,6 +553,12 @@ def run(chk, replay=None):
                 # the same run already has a functor running on a destroyed object: locking its dead mutex, touching
                 # other freed members ... are consequences of that use-after-free, not separate findings
                 hits = run_hits
+            if not hits and run_hits:
+                # ... and so are further races between the loop thread and the DESTRUCTOR of the very object (or of the
+                # class whose functor) the recorded finding is about: the same foreign-thread destruction
+                lt_ = lifetime_methods(rep)
+                if lt_ and any((h[0], "~" + h[0]) in lt_ or (c_, "~" + c_) in lt_ for h in run_hits for c_ in [BVSITE.get(h, h[0])]):
+                    hits = run_hits
             if hits:
                 # the functor of a borrow / raw-this violation touching memory that is gone
                 for cm in hits:
